@@ -12,7 +12,7 @@ use std::collections::BTreeMap;
 pub fn def() -> PropDef {
     PropDef {
         id: "C11",
-        rule: "generated: one encoded instance (family x engine x configuration class x size x data), a sufficient received set S (8 loss-pattern families), two independent arrival orders of S, a superset S' of S up to all k+r shards, and the all-originals case accompanied by random recovery shards. part corner_supersets: the same on every staircase corner of the envelope and its neighbours (k + r == 65536 exactly), two thirds of the cases with the superset of ALL k + r shards and all originals plus ALL recovery shards. oracle (metamorphic): restored(S, order1) == restored(S, order2); restored(S') == restored(S) restricted to the originals missing from S'; no given original is reported; all originals given => empty iterator. Each restored shard also equals the encoded original. non-trivial: the two orders differ and interleave originals with recovery, or |S'| > k; distinct by full case",
+        rule: "generated: one encoded instance (family x engine x configuration class x size x data), a sufficient received set S (8 loss-pattern families), two independent arrival orders of S, a superset S' of S up to all k+r shards, and the all-originals case accompanied by random recovery shards. part corner_supersets: the same on every staircase corner of the envelope and its neighbours (k + r == 65536 exactly), two thirds of the cases with the superset of ALL k + r shards and all originals plus ALL recovery shards. part many_long_supersets: 1..600 + 1100..3000 shards of 2..6 KiB with supersets mostly up to all shards. oracle (metamorphic): restored(S, order1) == restored(S, order2); restored(S') == restored(S) restricted to the originals missing from S'; no given original is reported; all originals given => empty iterator. Each restored shard also equals the encoded original. non-trivial: the two orders differ and interleave originals with recovery, or |S'| > k; distinct by full case",
         assumptions: &[],
         parts,
     }
@@ -58,10 +58,34 @@ fn corner_strategy(_t: Tier) -> BoxedStrategy<OrderCase> {
         .boxed()
 }
 
+/// many AND long AND a large surplus: one side 1..600 shards, the other 1100..3000, shards of 2..6 KiB (at most
+/// 16 MiB of shard data), supersets mostly up to all shards (thresholds such as ">= 1024 surplus shards of >= 4 KiB")
+fn many_long_strategy(_t: Tier) -> BoxedStrategy<OrderCase> {
+    gen::kind_any()
+        .prop_flat_map(move |kind| {
+            let full = || prop_oneof![2 => Just(0xFFFFu16), 1 => any::<u16>()];
+            (1usize..=600, 1100usize..=3000, any::<bool>(), 1024usize..=3200, any::<u8>(), gen::recv_spec(), 0u8..5, any::<u64>(), full(), full()).prop_map(
+                move |(few, many, flip, h, eraw, recv, order2, seed2, surplus_raw, companions_raw)| {
+                    let (k, r) = match kind {
+                        Kind::High => (many, few),
+                        Kind::Low => (few, many),
+                        _ => if flip { (many, few) } else { (few, many) },
+                    };
+                    let fast: Vec<Eng> = [Eng::NoSimd, Eng::Ssse3, Eng::Avx2, Eng::Default].iter().copied().filter(|e| e.available()).collect();
+                    let eng = if kind == Kind::Rs { Eng::Default } else { fast[(eraw as usize * fast.len()) >> 8] };
+                    let b = (h * 2).min((16usize << 20) / (k + r) / 2 * 2);
+                    OrderCase { kind, eng, cfg: Cfg { k, r, b }, data: DataSpec { mode: 0, seed: seed2 }, recv, order2, seed2, surplus_raw, companions_raw }
+                },
+            )
+        })
+        .boxed()
+}
+
 fn parts() -> Vec<Box<dyn PartDyn>> {
     vec![
         Box::new(GenPart { name: "order_surplus", quick: 25_000, thorough: 400_000, shrink_iters: 600, strat: strategy, check }),
         Box::new(GenPart { name: "corner_supersets", quick: 96, thorough: 3_000, shrink_iters: 12, strat: corner_strategy, check: check_corner }),
+        Box::new(GenPart { name: "many_long_supersets", quick: 48, thorough: 1_500, shrink_iters: 12, strat: many_long_strategy, check: |c, st| check_part(c, st, "many_long_supersets") }),
     ]
 }
 
